@@ -57,6 +57,7 @@ func (w *clientWindows) spend(stream uint32, n int64) {
 func TestC02(t *testing.T) {
 	r := vf.Begin(t, "C02")
 	defer r.End()
+	defer perturbReport(r)
 	r.Describe("PRNG scenarios on one client connection (NewConn/Handshake/Write) in a synctest bubble against a scripted x/net-based server: 1-16 (thorough up to 48) concurrent callers with 7 methods, custom/mixed-case/repeated fields, connection-specific fields that must be dropped, bodies none/buffered/streamed (declared or unknown length, 1 B..40 KiB reads) up to 300 KiB; "+
 		"the server opens its windows in PRNG increments so uploads interleave, then answers in PRNG order with responses encoded by the harness' HPACK encoder (random representations, dynamic-table reuse across responses), header blocks cut at arbitrary bytes into HEADERS+CONTINUATION, padding, DATA chunkings with empty/padded frames, optional trailers, frames of different streams interleaved, while honouring the credit the client returns. "+
 		"Oracle at the server: every request arrives exactly as built (pseudo-headers, lower-cased fields in order, no connection-specific field, body bytes, one END_STREAM) on odd strictly increasing stream ids; at each caller: exactly one outcome, nil error, and exactly the status/fields/trailers/body scripted for the stream its tag arrived on. "+
@@ -116,6 +117,51 @@ func c02Scenario(r *vf.Run, t *testing.T, id string, rng *rand.Rand) {
 			}
 		}
 		rt.Wait()
+		// A conforming server may answer before it has read the whole request (RFC 7540 8.1). One upload that is
+		// stuck behind the server's window is answered now; its caller must get exactly that response, and the rest
+		// of the connection must not notice.
+		cw := newClientWindows(e)
+		early := -1
+		if serverWindow <= 1000 && rng.Intn(3) == 0 {
+			for i, q := range reqs {
+				if len(q.Body) > int(serverWindow) && q.BodyMode != 0 && len(q.RespBody) <= 16000 {
+					early = i
+					break
+				}
+			}
+		}
+		if early >= 0 {
+			q := reqs[early]
+			var sid uint32
+			for _, s := range e.RequestsSeen() {
+				if tag, _ := s.Get("x-vtag"); tag == q.Tag {
+					sid = s.Stream
+				}
+			}
+			if sid == 0 {
+				early = -1
+			} else {
+				triggers = append(triggers, "resp.beforeRequestBodyComplete")
+				out := q.respHeaderBytes(e.P, sid)
+				for _, fb := range q.respData(sid) {
+					cw.spend(sid, int64(len(fb)-9))
+					out = append(out, fb...)
+				}
+				if len(q.RespTrail) > 0 {
+					out = append(out, q.respTrailerBytes(e.P, sid)...)
+				}
+				e.P.Write(out)
+				rt.Wait()
+				if d := q.checkDelivered(calls[early]); d != "" {
+					fail("response-mismatch", fmt.Sprintf("caller of %s (stream %d) was answered completely while %d of its %d body bytes (mode %d) were still waiting for the server's window of %d: %s", q.Tag, sid, len(q.Body)-int(serverWindow), len(q.Body), q.BodyMode, serverWindow, d))
+				}
+				r.Inc("responses_delivered_before_the_request_body_was_sent", 1)
+				if rng.Intn(2) == 0 {
+					e.P.Write(rt.RstStream(sid, 0)) // NO_ERROR: "stop sending the body"
+					rt.Wait()
+				}
+			}
+		}
 		// upload phase: open the windows in PRNG increments until every body has arrived
 		byTag := func() map[string]*rt.SeenRequest {
 			m := map[string]*rt.SeenRequest{}
@@ -129,9 +175,9 @@ func c02Scenario(r *vf.Run, t *testing.T, id string, rng *rand.Rand) {
 			seen := byTag()
 			var out []byte
 			var connInc uint32
-			for _, q := range reqs {
+			for i, q := range reqs {
 				s := seen[q.Tag]
-				if s == nil || s.EndStream > 0 || len(q.Body) == 0 {
+				if s == nil || s.EndStream > 0 || len(q.Body) == 0 || i == early {
 					continue
 				}
 				inc := uint32(1 + rng.Intn(60000))
@@ -160,13 +206,16 @@ func c02Scenario(r *vf.Run, t *testing.T, id string, rng *rand.Rand) {
 		if len(e.RequestsSeen()) != k {
 			fail("request-count", fmt.Sprintf("%d callers, %d request streams arrived", k, len(e.RequestsSeen())))
 		}
-		for _, q := range reqs {
+		for i, q := range reqs {
 			s := seen[q.Tag]
 			if s == nil {
 				fail("request-missing", fmt.Sprintf("request %s never arrived at the server", q.Tag))
 				continue
 			}
 			streamOf[q.Tag] = s.Stream
+			if i == early {
+				continue // answered early: the rest of its body need not arrive
+			}
 			if d := q.checkArrived(s); d != "" {
 				fail("request-mismatch", fmt.Sprintf("request %s (stream %d, body mode %d, %d bytes): %s", q.Tag, s.Stream, q.BodyMode, len(q.Body), d))
 			}
@@ -182,6 +231,9 @@ func c02Scenario(r *vf.Run, t *testing.T, id string, rng *rand.Rand) {
 		pos := make([]int, k)
 		remaining := 0
 		for i, q := range reqs {
+			if i == early {
+				continue
+			}
 			data[i] = q.respData(streamOf[q.Tag])
 			remaining += 1 + len(data[i])
 			if len(q.RespTrail) > 0 {
@@ -195,7 +247,7 @@ func c02Scenario(r *vf.Run, t *testing.T, id string, rng *rand.Rand) {
 				if len(q.RespTrail) > 0 {
 					tot++
 				}
-				if pos[i] < tot {
+				if pos[i] < tot && i != early {
 					cands = append(cands, i)
 				}
 			}
@@ -204,7 +256,6 @@ func c02Scenario(r *vf.Run, t *testing.T, id string, rng *rand.Rand) {
 			pos[i]++
 			remaining--
 		}
-		cw := newClientWindows(e)
 		burst := 1 + rng.Intn(8)
 		var out []byte
 		flush := func() {
@@ -252,6 +303,9 @@ func c02Scenario(r *vf.Run, t *testing.T, id string, rng *rand.Rand) {
 				}
 			}
 			for _, f := range e.P.Frames() {
+				if early >= 0 && f.Type == wire.TRstStream && f.Stream == streamOf[reqs[early].Tag] {
+					continue // giving up the rest of an upload whose answer has arrived is the client's right
+				}
 				if f.Type == wire.TGoAway || (f.Type == wire.TRstStream) {
 					fail("error-frame", "the client sent "+f.String()+" to a conforming server")
 				}
